@@ -372,8 +372,13 @@ def bounded_check(max_len: int = 7, alphabet: str = "ab\n") -> dict:
                         first = text[:s].count("\n")
                         last = text[: (e - 1 if e > s else s)].count("\n")
                         want = lines[first : last + 1]
-                        if sp.lines() != want or str(sp) != text[s:e]:
-                            bad.append({"what": "Span.lines/str", "text": text, "s": s, "e": e, "got": sp.lines(), "want": want})
+                        try:
+                            got_lines, got_str = sp.lines(), str(sp)
+                        except Exception as ex:  # noqa: BLE001
+                            bad.append({"what": f"Span.lines/str raised {type(ex).__name__}", "text": text, "s": s, "e": e})
+                            continue
+                        if got_lines != want or got_str != text[s:e]:
+                            bad.append({"what": "Span.lines/str", "text": text, "s": s, "e": e, "got": got_lines, "want": want})
             if len(bad) > 5:
                 break
     return {"name": "c14-exhaustive-small", "kind": "bounded stand-in + BRIDGE validation (exhaustive)", "bound": f"texts over {{a,b,\\n}} up to length {max_len}, all offsets",
